@@ -14,20 +14,20 @@ from ..runner import CaseResult, digest
 ID = "C11"
 ATOMS = ["a", "Bc", ":k", "?x", "-", "1.5", "<="]
 ODD_ATOMS = ["x^2", "#t", "p@q", "a,b", "k|", "[i]", "$v", "!n", "~", "a&b", "50%", '"s"', "it's", "{z}", "\\e", "^"]
-GAPS = [" ", "  ", "\t", "\n", "\r\n", "", " ;c\n", ";(x) ;y\n", "\n; only (comment\n", " \t \n"]
-SMALL_GAPS = [" ", "\t", "\n", " ;c\n", "", "\r\n"]
+GAPS = [" ", "  ", "\t", "\n", "\r\n", "", " ;c\n", ";(x) ;y\n", "\n; only (comment\n", " \t \n", "\r"]
+SMALL_GAPS = [" ", "\t", "\n", " ;c\n", "", "\r\n", "\r"]
 TINY_GAPS = [" ", "\t", "\n", ""]
 EDGE_GAPS = ["", " ", "\n", "\t", ";c\n", "\r\n"]
 CASEFN = [str.lower, str.upper, lambda s: s[:1].upper() + s[1:].lower()]
 
 RULE = ("all ordered token trees (root a list) with <= N nodes; leaves labelled from a 7-atom alphabet "
         "(full product for <= 4 nodes, 7 rotations of the alphabet above); per tree: canonical rendering, "
-        "all renderings with <= D deviations (a gap drawn from a 10-entry whitespace/comment menu, or an "
+        "all renderings with <= D deviations (a gap drawn from an 11-entry whitespace/comment menu (incl. a bare CR), or an "
         "atom in another letter case), full product over a 5-entry menu for trees of <= 3 nodes, both "
-        "entry points (quick: file entry for <= 1 deviation; deviations beyond the first (quick) / second (thorough) draw gaps from a 6-entry menu); all single-parenthesis deletions/insertions and 3 trailing-text faults. "
+        "entry points (quick: file entry for <= 1 deviation; deviations beyond the first (quick) / second (thorough) draw gaps from a 7-entry menu); all single-parenthesis deletions/insertions and 3 trailing-text faults. "
         "N,D = 5,2 (quick) / 6,3 (thorough). non-trivial = a tree with >= 1 atom and >= 1 nested list "
         "or >= 2 atoms")
-ASSUMPTIONS = ["lone CR line ends, Unicode blanks, bare top-level atoms and empty input are outside the alphabet",
+ASSUMPTIONS = ["a bare CR that would have to END A COMMENT, Unicode blanks, bare top-level atoms and empty input are outside the alphabet",
                "the generating tree is the specification; pv.sexp is cross-checked on every text"]
 CASE_TIMEOUT = 120
 
@@ -139,6 +139,7 @@ def legal(gap_text, a, b):
     if a in "()" or b in "()":
         return True
     return gap_text != "" and (gap_text[0] in " \t\r\n" or ";" in gap_text and "\n" in gap_text)
+    # (a bare CR is a blank; every comment of the menu ends with LF, so no comment is ever closed by a bare CR)
 
 
 def render(toks, gaps):
